@@ -35,6 +35,7 @@ type Contracts struct {
 	Specs   map[string]*SpecFunc
 	Order   []string
 	Assumed []string
+	StableStructs []string // struct types whose fields are not reachable from evaluated Lisp code: kept across opaque calls (assumed)
 	PureMethods map[string]bool // "Iface.Method": dynamic calls are a pure function of the receiver (assumed)
 }
 
